@@ -24,6 +24,16 @@ def make_lm(S, model, variant):
     return lm
 
 
+def prm_kwargs(S, model, variant):
+    """keyword arguments for set_prms of the configuration's parameters"""
+    if model in lifetime_closed.MODELS:
+        _, _, names = lifetime_closed.MODELS[model]
+        first, second = lifetime_closed.params(model, S, variant)
+        a1, a2 = lifetime_closed.build_arrays(S, first, second, variant)
+        return {names[0]: a1, names[1]: a2}
+    return {("mean" if S.cfg["family"] == "fixed" else "period"): S.prm_argument(variant)}
+
+
 def run_id(S, model, variant, inflow):
     st = flodym.InflowDrivenDSM(dims=S.dims, time_letter="t", lifetime_model=make_lm(S, model, variant))
     st.inflow.values[...] = inflow
@@ -99,6 +109,16 @@ def relational_vector(vec):
         for st in (a, b):
             problems += [tag + p for p in conservation(S, st.stock.values, st.inflow.values, st.outflow.values)]
             problems += [tag + p for p in cohort_clauses(S, st)]
+        # C09 / C03 also hold after re-parameterising and recomputing the SAME object
+        cfg2 = dict(config)
+        cfg2["prm8"] = [[v + 8 for v in row] for row in config["prm8"]]
+        S_new = Setup(cfg2)
+        re = run_id(S, model, variant, d1)
+        re.lifetime_model.set_prms(**prm_kwargs(S_new, model, variant + 1))
+        re.compute()
+        problems += [tag + "(after set_prms + recompute) " + p.replace("{C03}", "{C03,C17}") for p in
+                     conservation(S, re.stock.values, re.inflow.values, re.outflow.values)]
+        problems += [tag + "(after set_prms + recompute) " + p.replace("{C09}", "{C09,C17}") for p in cohort_clauses(S, re)]
         # C16 superposition and scaling
         c = run_id(S, model, variant, d1 + 2 * d2)
         for name, f in (("stock", lambda s: s.stock.values), ("outflow", lambda s: s.outflow.values),
